@@ -26,7 +26,7 @@ impl EmmyLuaEmitter {
 
     /// Write a doc comment line: `--- text`.
     pub fn write_doc_comment(&mut self, text: &str) {
-        for line in text.lines() {
+        for line in comment_lines(text) {
             let _ = writeln!(self.output, "--- {}", line);
         }
     }
@@ -58,7 +58,7 @@ impl EmmyLuaEmitter {
     pub fn write_field(&mut self, name: &str, ty: &str, description: Option<&str>) {
         // Emit description above the field
         if let Some(desc) = description {
-            for line in desc.lines() {
+            for line in comment_lines(desc) {
                 let _ = writeln!(self.output, "--- {}", line);
             }
         }
@@ -76,7 +76,7 @@ impl EmmyLuaEmitter {
     /// Write `---@field [key_type] value_type` (index signature) with description on a separate line above.
     pub fn write_index_field(&mut self, key_ty: &str, value_ty: &str, description: Option<&str>) {
         if let Some(desc) = description {
-            for line in desc.lines() {
+            for line in comment_lines(desc) {
                 let _ = writeln!(self.output, "--- {}", line);
             }
         }
@@ -152,7 +152,13 @@ pub fn lua_string_literal(value: &str) -> String {
 
 /// A description that is written after `#` must stay on the line of its variant.
 fn single_line(text: &str) -> String {
-    text.lines().collect::<Vec<_>>().join(" ")
+    comment_lines(text).collect::<Vec<_>>().join(" ")
+}
+
+/// The lines of a description. A lone carriage return ends a line of Lua source just like `\n`
+/// and `\r\n` do, so it must not be copied into a comment line.
+fn comment_lines(text: &str) -> impl Iterator<Item = &str> {
+    text.lines().flat_map(|line| line.split('\r'))
 }
 
 /// Check if a field name needs bracket notation (contains special characters).
